@@ -300,6 +300,7 @@ type c16Log struct {
 	names   []string
 	digests []uint64
 	det     []bool
+	t0, t1  []int64 // goroutine-local monotonic timestamps of each call (informational: measures overlap actually achieved)
 }
 
 func c16RunProgram(seed uint64, g, iters int, sh *c16Shared, yield bool) *c16Log {
@@ -325,7 +326,18 @@ func c16RunProgram(seed uint64, g, iters int, sh *c16Shared, yield bool) *c16Log
 
 		y := r.Intn(8) == 0 // draw regardless of yield so that the solo and concurrent runs use the same stream
 
+		var ts int64
+		if yield {
+			ts = int64(time.Since(c16Epoch))
+		}
+
 		n, d, det := c16Do(op, st, sh, r)
+
+		if yield {
+			lg.t0 = append(lg.t0, ts)
+			lg.t1 = append(lg.t1, int64(time.Since(c16Epoch)))
+		}
+
 		lg.names = append(lg.names, n)
 		lg.digests = append(lg.digests, d)
 		lg.det = append(lg.det, det)
@@ -338,7 +350,72 @@ func c16RunProgram(seed uint64, g, iters int, sh *c16Shared, yield bool) *c16Log
 	return lg
 }
 
+var c16Epoch = time.Now()
+
+// c16Overlaps counts the distinct pairs of calls (by function+argument name) that were in flight at the same time in
+// two different goroutines, and those among them that used the same shared argument. Informational only: the verdict
+// never depends on timing.
+func c16Overlaps(logs []*c16Log) (pairs, sameArg int) {
+	type iv struct {
+		t0, t1 int64
+		g      int
+		name   string
+	}
+
+	var all []iv
+
+	for g, lg := range logs {
+		for i := range lg.t0 {
+			all = append(all, iv{lg.t0[i], lg.t1[i], g, lg.names[i]})
+		}
+	}
+
+	sort.Slice(all, func(i, j int) bool { return all[i].t0 < all[j].t0 })
+
+	seen := map[string]bool{}
+	same := map[string]bool{}
+	active := map[int]iv{}
+
+	argOf := func(n string) string {
+		if k := strings.IndexByte(n, '('); k > 0 {
+			return n[k:]
+		}
+
+		return ""
+	}
+
+	for _, x := range all {
+		for g, a := range active {
+			if a.t1 <= x.t0 {
+				delete(active, g)
+				continue
+			}
+
+			if g == x.g {
+				continue
+			}
+
+			p, q := a.name, x.name
+			if q < p {
+				p, q = q, p
+			}
+
+			seen[p+"|"+q] = true
+
+			if aa := argOf(a.name); aa != "" && aa == argOf(x.name) && reArg.MatchString(a.name) {
+				same[p+"|"+q] = true
+			}
+		}
+
+		active[x.g] = x
+	}
+
+	return len(seen), len(same)
+}
+
 type c16ChildResult struct {
+	OverlapPairs        int `json:"overlap_pairs"`
+	OverlapSameArgPairs int `json:"overlap_same_arg_pairs"`
 	Goroutines   int              `json:"goroutines"`
 	Iters        int              `json:"iters"`
 	GOMAXPROCS   int              `json:"gomaxprocs"`
@@ -483,6 +560,8 @@ func C16Load(seed uint64, goroutines, iters int, out string, concFirst bool) int
 	for p := range pairs {
 		res.Pairs = append(res.Pairs, p)
 	}
+
+	res.OverlapPairs, res.OverlapSameArgPairs = c16Overlaps(conc)
 
 	sort.Strings(res.Pairs)
 
@@ -737,6 +816,8 @@ func c16Parent(p *mon.Prop, pc *mon.ParentCtx) *mon.Aggregate {
 		agg.Counters["shared-argument-calls"] += o.res.SharedCalls
 		agg.Counters["goroutines-run"] += int64(o.res.Goroutines)
 		agg.Counters["workload-runs"]++
+		agg.Counters["distinct-call-pairs-observed-in-flight-simultaneously(sum over runs)"] += int64(o.res.OverlapPairs)
+		agg.Counters["of-which-on-the-same-shared-argument"] += int64(o.res.OverlapSameArgPairs)
 
 		if o.res.ConcFirst {
 			agg.Counters["workload-runs-concurrent-first"]++
